@@ -128,18 +128,19 @@ def _cell_key(c):
 def _describe(c):
     st = "absent" if c["state"] == ABSENT else f"0x{c['state']:02x}"
     er = "absent" if c["error"] == ABSENT else "empty" if c["error"] == EMPTY else f"0x{c['error']:02x}"
-    return (f"step {c['step']} via {c['tr']}: reply State={st} Error={er} fields={c['others']}"
-            f"{' +RetryDelay' if c['retry'] else ''}")
+    rd = {"none": "", "last": " +RetryDelay(last)", "first": " +RetryDelay(before Error)"}[c["retry"]]
+    return f"step {c['step']} via {c['tr']}: reply State={st} Error={er} fields={c['others']}{rd}"
 
 
 def run(ctx):
     import aiohomekit  # noqa: F401
     ctx.rule = ("a cell = (protocol step, transport, State value or absent, Error value / empty / absent, subset of the "
-                "step's other fields, trailing RetryDelay) as enumerated by TLC from spec/pairing/HapErrors.tla; "
+                "step's other fields, RetryDelay item absent / last / before the Error) as enumerated by TLC from "
+                "spec/pairing/HapErrors.tla; "
                 "non-trivial = the reply carries an error or a wrong step number")
-    ctx.assume("reply items are sent in the order State, Error, step fields, RetryDelay (an item of a type outside the "
-               "generator's expected list placed *before* the Error item is cut off by the IP/CoAP decoder and is not "
-               "part of the claim)",
+    ctx.assume("reply items are the ones HAP defines for the reply (State, Error, RetryDelay, the step's fields), sent in the order "
+               "State, [RetryDelay], Error, step fields, [RetryDelay]; an item of any *other* type placed before the Error item "
+               "is cut off by the IP/CoAP decoder's expected-types filter and is not part of the claim",
                "outcome classes are taken by isinstance against aiohomekit.exceptions; IP pair-verify is observed through "
                "IpPairing.connection.ensure_connection()/last_connector_error on the virtual-time loop",
                "BLE add/remove pairing: BlePairing._async_request and _populate_accessories_and_characteristics are "
@@ -177,13 +178,13 @@ def run(ctx):
                 honest_ok[(c["step"], c["tr"])] = honest_ok.get((c["step"], c["tr"]), True) and obs == "ok"
             if cls not in c["allowed"]:
                 kind = "reported as success" if obs == "ok" else f"ended as {obs}"
-                g = groups.setdefault((c["step"], c["tr"], c["state"] == ABSENT, kind), [])
+                g = groups.setdefault((c["step"], c["tr"], c["state"] == ABSENT, c["retry"] == "first", kind), [])
                 g.append((c, obs, detail))
             else:
                 ctx.trace_ok()
             if nontrivial and len(ctx.samples) < 4 and (c["step"], c["tr"], c["error"]) in (
                     ("PV_M4", "ip", 2), ("PS_M4", "ble", 6), ("PS_M6", "coap", 7), ("IP_Remove", "ip", 2)) \
-                    and c["state"] == ABSENT and not c["retry"]:
+                    and c["state"] == ABSENT and c["retry"] == "none":
                 ctx.sample({"cell": {k: c[k] for k in ("step", "tr", "state", "error", "others", "retry", "allowed")},
                             "observed": obs, "reply": detail["reply"]})
         # vacuity guard: the driver really reaches every step with an exchange that completes
@@ -191,12 +192,13 @@ def run(ctx):
             if not honest_ok.get((s, t)):
                 raise MachineryError(f"baseline: the honest reply at {s} via {t} does not complete on this tree - "
                                      f"the cells of this step cannot be evaluated")
-        for (s, t, noabs, kind), items in sorted(groups.items(), key=lambda kv: (kv[0][0], kv[0][1], str(kv[0][2:]))):
+        for (s, t, noabs, rfirst, kind), items in sorted(groups.items(), key=lambda kv: (kv[0][0], kv[0][1], str(kv[0][2:]))):
             c, obs, detail = items[0]
             ctx.violation(
                 f"{_describe(c)} {kind}; the specification allows {sorted(c['allowed'])} "
                 f"[{len(items)} cells of this step/transport fail the same way"
-                f"{', all without a State item' if noabs else ''}]  exception: {detail['exception']}",
+                f"{', all without a State item' if noabs else ''}"
+                f"{', all with a RetryDelay item before the Error item' if rfirst else ''}]  exception: {detail['exception']}",
                 {"kind": "cell", "cell": c, "observed": obs, "detail": detail,
                  "more": [_describe(x[0]) + " -> " + x[1] for x in items[1:6]]})
         ctx.notes["cells"] = len(cells)
@@ -251,8 +253,9 @@ def _random_records(ctx, n):
         st = rng.choice([ABSENT, _STEP_NO.get(s, 2), rng.randrange(256), rng.randrange(256)])
         er = rng.choice([ABSENT, rng.randrange(256), rng.randrange(256), rng.randrange(256)])
         others = [f for f in order if f in fields.get(s, []) and rng.random() < 0.7]
-        retry = rng.random() < 0.3
-        wire = (["state"] if st != ABSENT else []) + (["error"] if er != ABSENT else []) + others + (["retry"] if retry else [])
+        retry = rng.choice(["none", "none", "last", "first"]) if er != ABSENT else rng.choice(["none", "none", "last"])
+        wire = (["state"] if st != ABSENT else []) + (["retry"] if retry == "first" else []) + (["error"] if er != ABSENT else []) \
+            + others + (["retry"] if retry == "last" else [])
         cells.append({"step": s, "tr": tr, "state": st, "error": er, "others": others, "retry": retry, "wire": wire})
     with mp.get_context("fork").Pool(16) as pool:
         results = pool.map(_work, cells, chunksize=16)
